@@ -4,6 +4,7 @@
 package index
 
 import (
+	"bytes"
 	"errors"
 	"fmt"
 	"io"
@@ -81,7 +82,16 @@ func (s *HashSet) Add(hash []byte) error {
 	if off != -1 {
 		return nil
 	}
-	s.batch = append(s.batch, hash)
+	// the hash may already be waiting in the batch that has not been flushed yet
+	for _, b := range s.batch {
+		if bytes.Equal(b, hash) {
+			return nil
+		}
+	}
+	// keep a private copy: the caller is free to reuse its buffer
+	h := make([]byte, len(hash))
+	copy(h, hash)
+	s.batch = append(s.batch, h)
 	if len(s.batch) >= int(s.batchSize) {
 		return s.Flush()
 	}
